@@ -17,7 +17,7 @@ Qed.
 
 (* what a receiver handle shows after its new value has been written to its cell *)
 Lemma write_back_receiver a k h s rs a' :
-  nth_error (hs a) k = Some h -> (match h with HView _ _ => False | _ => True end) ->
+  nth_error (hs a) k = Some h -> (match h with HView _ _ _ => False | _ => True end) ->
   view_of (cells a) h = Ok rs -> spkg s = spkg rs ->
   write_back a k s = Ok a' ->
   exists x, nth_error (cells a') (hcell h) = Some x /\ spkg x = spkg s /\ srows x = srows s /\
@@ -25,7 +25,7 @@ Lemma write_back_receiver a k h s rs a' :
   length (hs a') = length (hs a).
 Proof.
   intros NH NV VO PK WB. unfold write_back in WB. rewrite NH in WB.
-  destruct h as [j|j ph|j p|j phs]; [| |contradiction|]; simpl in *.
+  destruct h as [j|j ph|j p lbl|j phs]; [| |contradiction|]; simpl in *.
   - inversion WB; subst a'. simpl.
     assert (j < length (cells a))%nat as L by (eapply gets_lt; eauto).
     exists s. split; [apply nth_error_upd_same; auto|]. split; auto. split; auto. split; auto.
@@ -49,12 +49,12 @@ Qed.
 Lemma write_back_lengths a k s a' : write_back a k s = Ok a' ->
   length (hs a') = length (hs a) /\ length (cells a') = length (cells a).
 Proof.
-  unfold write_back. destruct (nth_error (hs a) k) as [[j|j ph|j p|j phs]|]; intros H; try discriminate.
+  unfold write_back. destruct (nth_error (hs a) k) as [[j|j ph|j p lbl|j phs]|]; intros H; try discriminate.
   - inversion H; subst; simpl. rewrite upd_length. auto.
   - destruct (gets (cells a) j) as [[c|m]|]; simpl in H; try discriminate. destruct s; [|discriminate].
     inversion H; subst; simpl. rewrite !upd_length. auto.
   - destruct (gets (cells a) j) as [[c|m]|]; simpl in H; try discriminate. destruct s; [|discriminate].
-    destruct (phase_index p (mphases m)); simpl in H; [|discriminate]. inversion H; subst; simpl. rewrite upd_length. auto.
+    destruct (pindex_exact p (mphases m)); simpl in H; [|discriminate]. inversion H; subst; simpl. rewrite upd_length. auto.
   - destruct (gets (cells a) j) as [[c|m]|]; simpl in H; try discriminate. destruct s; [discriminate|].
     inversion H; subst; simpl. rewrite !upd_length. auto.
 Qed.
@@ -67,7 +67,6 @@ Proof. intros P R. unfold tot. rewrite P, R. reflexivity. Qed.
    cell is untouched *)
 Lemma alias_mix_value a r ins eb hf a' vst h :
   views (cells a) (hs a) = Ok vst -> wf_store vst -> nth_error (hs a) r = Some h ->
-  (eb = true -> own_view_only (hs a) vst r ins = false) ->
   mix_rebind vst r ins eb hf = None ->
   astep a (OMix r ins eb hf) = Ok a' ->
   exists x, nth_error (cells a') (hcell h) = Some x /\
@@ -75,11 +74,9 @@ Lemma alias_mix_value a r ins eb hf a' vst h :
     (forall j', j' <> hcell h -> nth_error (cells a') j' = nth_error (cells a) j') /\
     length (hs a') = length (hs a).
 Proof.
-  intros V WS NH OWN NRB H. unfold astep in H. rewrite V in H. cbn [bind] in H.
+  intros V WS NH NRB H. unfold astep in H. rewrite V in H. cbn [bind] in H.
   destruct (safe_op (hs a) vst (OMix r ins eb hf)) eqn:SAFE; cbn [negb] in H; [|discriminate].
-  assert (astep_values (hs a) vst (OMix r ins eb hf) = step vst (OMix r ins eb hf)) as AV.
-  { unfold astep_values. destruct eb; [rewrite (OWN eq_refl)|]; reflexivity. }
-  rewrite AV in H. simpl in H.
+  simpl in H.
   destruct (mix vst r ins eb hf) as [s|] eqn:MX; cbn [bind] in H; [|discriminate].
   destruct (views_nth _ _ _ V) as [LV NV]. destruct (NV r h NH) as [rs [VO NR]].
   assert (r < length vst)%nat as LR by (apply nth_error_Some; congruence).
@@ -87,7 +84,7 @@ Proof.
   cbn [rebind_info] in H. rewrite NRB in H.
   destruct (write_back a r s) as [a1|] eqn:WB; cbn [bind] in H; [|discriminate]. inversion H; subst a1. clear H.
   destruct (mix_result_thm _ _ _ _ _ _ _ WS NR MX) as [PK _].
-  assert (match h with HView _ _ => False | _ => True end) as NVW.
+  assert (match h with HView _ _ _ => False | _ => True end) as NVW.
   { simpl in SAFE. apply andb_true_iff in SAFE. destruct SAFE as [_ S1]. unfold is_view in S1. rewrite NH in S1.
     destruct h; auto. discriminate. }
   destruct (write_back_receiver _ _ _ _ _ _ NH NVW VO PK WB) as [x [NX [PX [RX [FR LH]]]]].
@@ -100,7 +97,6 @@ Qed.
    updated any more (sharing ends silently) *)
 Lemma alias_mix_value_rebind a r ins eb hf a' vst h resid :
   views (cells a) (hs a) = Ok vst -> wf_store vst -> nth_error (hs a) r = Some h ->
-  (eb = true -> own_view_only (hs a) vst r ins = false) ->
   mix_rebind vst r ins eb hf = Some resid ->
   astep a (OMix r ins eb hf) = Ok a' ->
   exists x, nth_error (hs a') r = Some (HCell (length (cells a))) /\
@@ -108,11 +104,9 @@ Lemma alias_mix_value_rebind a r ins eb hf a' vst h resid :
     (forall c, tot x c == qsum (map (tot_at vst c) ins)) /\
     length (cells a') = S (length (cells a)).
 Proof.
-  intros V WS NH OWN RB H. unfold astep in H. rewrite V in H. cbn [bind] in H.
+  intros V WS NH RB H. unfold astep in H. rewrite V in H. cbn [bind] in H.
   destruct (safe_op (hs a) vst (OMix r ins eb hf)) eqn:SAFE; cbn [negb] in H; [|discriminate].
-  assert (astep_values (hs a) vst (OMix r ins eb hf) = step vst (OMix r ins eb hf)) as AV.
-  { unfold astep_values. destruct eb; [rewrite (OWN eq_refl)|]; reflexivity. }
-  rewrite AV in H. simpl in H.
+  simpl in H.
   destruct (mix vst r ins eb hf) as [s|] eqn:MX; cbn [bind] in H; [|discriminate].
   destruct (views_nth _ _ _ V) as [LV NV]. destruct (NV r h NH) as [rs [VO NR]].
   assert (r < length vst)%nat as LR by (apply nth_error_Some; congruence).
@@ -123,4 +117,28 @@ Proof.
   exists s. split; [rewrite LC; apply nth_error_upd_same; rewrite map_length, LH; apply nth_error_Some; congruence|].
   split; [rewrite <- LC; rewrite nth_error_app2 by lia; rewrite Nat.sub_diag; reflexivity|].
   split; [apply (mix_value_thm _ _ _ _ _ _ WS MX)|]. rewrite app_length. simpl. lia.
+Qed.
+
+(* MultiStream.phases setter (split_to on a used outlet, multi-phase fallback): when the owner of a multi-phase
+   cell gets a new indexer that is again multi-phase, every cached sub-stream whose phase the new indexer has is
+   re-pointed to the new rows; the stream itself moves to the new cell, which holds the new value *)
+Lemma views_follow a vst vst' o k j m' resid a' :
+  nth_error (hs a) k = Some (HCell j) -> gets vst' k = Ok (MS m') ->
+  rebind_info vst o k = Some resid -> kind_at vst k = true ->
+  write_target a vst vst' o k = Ok a' ->
+  nth_error (hs a') k = Some (HCell (length (cells a))) /\
+  nth_error (cells a') (length (cells a)) = Some (MS m') /\
+  forall q p lbl, q <> k -> nth_error (hs a) q = Some (HView j p lbl) -> in_indexer lbl (mphases m') = true ->
+              nth_error (hs a') q = Some (HView (length (cells a)) (if pmem lbl (mphases m') then lbl else swapcase lbl) lbl).
+Proof.
+  intros NH GV RB KA H. unfold write_target in H. rewrite GV in H. cbn [bind] in H. rewrite RB in H.
+  destruct (write_back a k resid) as [a1|] eqn:WB; cbn [bind] in H; [|discriminate].
+  assert (hs a1 = hs a /\ length (cells a1) = length (cells a)) as [EH LC].
+  { unfold write_back in WB. rewrite NH in WB. inversion WB; subst; simpl. rewrite upd_length. auto. }
+  inversion H; subst a'. clear H. simpl. rewrite EH, LC, NH, KA.
+  assert (k < length (hs a))%nat as LK by (apply nth_error_Some; congruence).
+  split; [apply nth_error_upd_same; rewrite map_length; auto|].
+  split; [rewrite <- LC; rewrite nth_error_app2 by lia; rewrite Nat.sub_diag; reflexivity|].
+  intros q p lbl NQ NV IN. rewrite nth_error_upd_other by auto. rewrite nth_error_map, NV. simpl.
+  rewrite Nat.eqb_refl, IN. reflexivity.
 Qed.
